@@ -14,6 +14,13 @@ VERIF = os.path.dirname(HERE)
 REPO = os.environ.get("VERIF_REPO", "/repo")
 sys.path.insert(0, HERE)
 from mutants import MUTANTS  # noqa: E402
+import glob
+
+# the independently seeded changes are re-checked like mutants: each must still make the check of its property fire
+for _d in sorted(glob.glob(os.path.join(VERIF, "seeded", "*", "meta.json"))):
+    _m = json.load(open(_d))
+    MUTANTS.append({"id": "seed-" + os.path.basename(os.path.dirname(_d)), "prop": _m["breaks_property"], "expect": "fire", "mention": [],
+                    "patch": os.path.join(os.path.dirname(_d), "patch.diff"), "edits": [], "tu": []})
 
 FLAGS = ["-std=gnu++11", "-I%s/cola" % REPO, "-DHAVE_CONFIG_H", "-UNDEBUG", "-w", "-fsyntax-only"]
 
@@ -75,6 +82,11 @@ def main():
         t0 = time.time()
         try:
             ok_apply = True
+            if m.get("patch"):
+                r0 = sh(["git", "-C", REPO, "apply", m["patch"]])
+                if r0.returncode != 0:
+                    print("%-44s BROKEN-MUTANT: seeded patch does not apply: %s" % (m["id"], r0.stdout[-200:]))
+                    ok_apply = False
             for ed in m["edits"]:
                 p = os.path.join(REPO, ed["file"])
                 s = open(p).read()
